@@ -1,0 +1,82 @@
+//go:build verif
+
+// Contracts for the gowp verifier (/verif). Comment-only file: compiled only with -tags verif and
+// contributes no code either way.
+
+package routing
+
+//@ func newRoute
+//@   props C19
+//@   requires blindedPathSet == nil
+//@   requires forallq(k, 0, len(pathEdges), pathEdges[k] != nil && pathEdges[k].policy != nil)
+//@   let last = len(pathEdges) - 1
+//@   let j = prev(i)
+//@   let a = prev(nextIncomingAmount)
+//@   let outF = models.outFee(pathEdges[j + 1].policy.FeeBaseMSat, pathEdges[j + 1].policy.FeeProportionalMillionths, a)
+//@   let inF = models.inFee(pathEdges[j].inboundFees.Base, pathEdges[j].inboundFees.Rate, a + outF)
+//@   loop 0 invariant -1 <= i && i <= last && (i == last ==> totalTimeLock == currentHeight)
+//@   loop 0 step i == j - 1 && len(hops) == prev(len(hops)) + 1
+//@   loop 0 step hops[0].AmtToForward == ite(j == last, finalHop.amt, a)
+//@   loop 0 step hops[0].OutgoingTimeLock == ite(j == last, wrap(currentHeight + finalHop.cltvDelta, 32), prev(totalTimeLock))
+//@   loop 0 step hops[0].ChannelID == pathEdges[j].policy.ChannelID
+//@   loop 0 step totalTimeLock == ite(j == last, wrap(currentHeight + finalHop.cltvDelta, 32),
+//@        wrap(prev(totalTimeLock) + pathEdges[j + 1].policy.TimeLockDelta, 32))
+//@   loop 0 step nextIncomingAmount == ite(j == last, finalHop.amt, wrap(a + max(0, outF + inF), 64))
+//@   site call ComputeFee: domain amtToForward <= 1<<40 && arg(0).FeeProportionalMillionths <= 1000000 && arg(0).FeeBaseMSat < 1<<32
+//@   site call CalcFee: domain -1000000 <= arg(0).Rate && arg(0).Rate <= 1000000
+//@   site call ComputeFee as fee-policy: assert arg(0) == pathEdges[i + 1].policy && arg(1) == nextIncomingAmount
+//@   site call CalcFee as fee-inbound: assert arg(0) == addr(pathEdges[i].inboundFees) && arg(1) == wrap(nextIncomingAmount + ret(ComputeFee), 64)
+//@   site call NewRouteFromHops: assert arg(0) == nextIncomingAmount && arg(1) == totalTimeLock && arg(3) == hops
+//@
+//@ extern func lnwire.NewMSatFromSatoshis
+//@   ensures result == wrap(sat * 1000, 64)
+//@
+//@ func (u *unifiedEdge) amtInRange
+//@   props C19
+//@   ensures result <==> (!(u.capacity > 0 && amt > wrap(u.capacity * 1000, 64)) && !(u.policy.HasMaxHTLC && amt > u.policy.MaxHTLC) &&
+//@           amt >= u.policy.MinHTLC)
+//@   modifies nothing
+//@
+//@ func calcCappedInboundFee
+//@   props C19
+//@   requires nextOutFee <= 1<<62
+//@   ensures result == max(ret(CalcFee), -nextOutFee)
+//@   site call CalcFee: assert arg(0) == addr(edge.inboundFees) && arg(1) == amt
+//@   site call CalcFee: domain amt <= 1<<40 && -1000000 <= arg(0).Rate && arg(0).Rate <= 1000000
+//@
+//@ func (u *edgeUnifier) getEdgeLocal
+//@   props C19
+//@   requires nextOutFee <= 1<<62
+//@   loop * havoc
+//@   site call newUnifiedEdge: assert arg(0) == edge.policy && arg(2) == edge.inboundFees &&
+//@        (ret(isCustomHTLCPayment) || ret(amtInRange)) && amt <= bandwidth &&
+//@        amt == wrap(netAmtReceived + ret(calcCappedInboundFee), 64)
+//@   site call amtInRange: assert arg(0) == edge && arg(1) == wrap(netAmtReceived + ret(calcCappedInboundFee), 64)
+//@   site call availableChanBandwidth: assert arg(1) == edge.policy.ChannelID && arg(2) == amt
+//@   site call calcCappedInboundFee: assert arg(0) == edge && arg(1) == netAmtReceived && arg(2) == nextOutFee
+//@
+//@ func (u *edgeUnifier) getEdgeNetwork
+//@   props C19
+//@   requires nextOutFee <= 1<<62
+//@   loop * havoc
+//@   site call newUnifiedEdge nth 0: assert arg(0) == edge.policy && arg(2) == edge.inboundFees &&
+//@        ret(amtInRange) && !edge.policy.IsDisabled
+//@   site call amtInRange: assert arg(0) == edge && arg(1) == wrap(netAmtReceived + ret(calcCappedInboundFee), 64)
+//@   site call calcCappedInboundFee: assert arg(0) == edge && arg(1) == netAmtReceived && arg(2) == nextOutFee
+//@   site call ComputeFee: domain arg(1) <= 1<<40 && arg(0).FeeProportionalMillionths <= 1000000 && arg(0).FeeBaseMSat < 1<<32
+//@
+//@ func findPath$2
+//@   props C19
+//@   loop * havoc
+//@   site mapupdate distance as feelimit: assert amountToSend <= amt || amountToSend - amt <= r.FeeLimit
+//@   site mapupdate distance as prob: assert !feq(edgeProbability, flit(0))
+//@   site mapupdate distance as amount: assert amountToSend == wrap(toNodeDist.netAmountReceived + max(ret(CalcFee), -toNodeDist.outboundFee), 64)
+//@   site mapupdate distance as cltv: assert wrap(incomingCltv, 64) <= absoluteCltvLimit
+//@   site mapupdate distance as size: assert routingInfoSize <= 1300
+//@   site mapupdate distance as record: assert arg(val).netAmountReceived == wrap(amountToSend + outboundFee, 64) &&
+//@        arg(val).incomingCltv == incomingCltv && arg(val).nextHop == edge && arg(key) == fromVertex &&
+//@        arg(val).netAmountReceived >= arg(val).outboundFee
+//@   site call ComputeFee: assert arg(0) == edge.policy && arg(1) == amountToSend
+//@   site call ComputeFee: domain arg(1) <= 1<<40 && arg(0).FeeProportionalMillionths <= 1000000 && arg(0).FeeBaseMSat < 1<<32
+//@   site call CalcFee: domain arg(1) <= 1<<40 && -1000000 <= arg(0).Rate && arg(0).Rate <= 1000000 && amt <= 1<<40 && toNodeDist.outboundFee <= 1<<40 &&
+//@        toNodeDist.netAmountReceived >= toNodeDist.outboundFee
